@@ -8,6 +8,7 @@ import itertools
 import json
 import os
 import random
+import sys
 import time
 import traceback
 from typing import Any, Callable, Dict, List, Optional
@@ -55,7 +56,7 @@ class Int(Spec):
         return list(range(lo, min(hi, lo + 6) + 1))
 
     def from_model(self, model, name, symbols):
-        return core.model_value(model, "int", symbols[name][1]) if name in symbols else (self.lo or 0)
+        return core.model_value(model, "int", name) if name in model else (self.lo or 0)
 
 
 class Real(Spec):
@@ -69,7 +70,7 @@ class Real(Spec):
         return list(self._small if self._small is not None else [0.0, 0.25, 0.5, 1.0, 1.5, 2.0, 3.0])
 
     def from_model(self, model, name, symbols):
-        return core.model_value(model, "real", symbols[name][1]) if name in symbols else 0.0
+        return core.model_value(model, "real", name)
 
 
 class Bool(Spec):
@@ -80,7 +81,7 @@ class Bool(Spec):
         return [False, True]
 
     def from_model(self, model, name, symbols):
-        return core.model_value(model, "bool", symbols[name][1]) if name in symbols else False
+        return core.model_value(model, "bool", name)
 
 
 class ForkBool(Spec):
@@ -109,9 +110,7 @@ class Bytes(Spec):
         return out
 
     def from_model(self, model, name, symbols):
-        if name not in symbols:
-            return b"" if self.kind == "bytes" else ""
-        return core.model_value(model, self.kind, symbols[name][1])
+        return core.model_value(model, self.kind, name)
 
 
 def Str(**kw):
@@ -133,7 +132,7 @@ class Opt(Spec):
 
     def from_model(self, model, name, symbols):
         k = name + "?none"
-        if k in symbols and core.model_value(model, "bool", symbols[k][1]):
+        if core.model_value(model, "bool", k):
             return None
         return self.inner.from_model(model, name, symbols)
 
@@ -156,9 +155,7 @@ class OneOf(Spec):
     def from_model(self, model, name, symbols):
         for k, v in enumerate(self.values[:-1]):
             key = "%s?is%d" % (name, k)
-            if key not in symbols:
-                return v if k == 0 and False else self.values[-1] if False else v
-            if core.model_value(model, "bool", symbols[key][1]):
+            if core.model_value(model, "bool", key):
                 return v
         return self.values[-1]
 
@@ -176,7 +173,7 @@ class Val(Spec):
         return list(self._small)
 
     def from_model(self, model, name, symbols):
-        return "val:%s" % core.model_value(model, "val", symbols[name][1]) if name in symbols else "val:?"
+        return "val:%s" % (model.get(name, {}).get("repr", "?") if isinstance(model.get(name), dict) else "?")
 
 
 class Const(Spec):
@@ -342,8 +339,10 @@ class Contract:
     trusted: List[str] = []
     canaries: List[tuple] = []  # (old text, new text, clause expected to fail | None for harmless)
     max_paths = 4000
-    timeout_quick = 10
+    timeout_quick = 30
     timeout_thorough = 60
+    budget_quick = 150   # seconds of wall time per contract after which remaining VCs are left undecided
+    budget_thorough = 900
     bounded_only = False  # contract evaluated only in the bounded tier
     bounded_random = 200
 
@@ -400,6 +399,11 @@ class Contract:
     def nontrivial(self, S):
         """Rule for counting a bounded evaluation as non-trivial."""
         return True
+
+    def lemmas(self, S):
+        """Instances of proved lemmas made available to the ensures clauses:
+        list of (LemmaClass, params-dict)."""
+        return []
 
     def known_regions(self):
         from . import findings
@@ -529,6 +533,10 @@ def symbolic_run(contract: Contract, tier="quick", mutate=None) -> FunctionResul
     contract.mode = "symbolic"
     models.USED_AXIOMS.clear()
     timeout = contract.timeout_quick if tier == "quick" else contract.timeout_thorough
+    budget = contract.budget_quick if tier == "quick" else contract.budget_thorough
+    if mutate is not None:
+        timeout = min(timeout, 10)  # canary runs only need the refutation, which is fast
+        budget = 90
     try:
         pf, sha = contract.load()
         res.sha = sha
@@ -571,6 +579,8 @@ def symbolic_run(contract: Contract, tier="quick", mutate=None) -> FunctionResul
         cover = 0
         for c, outcome in core.explore(run, max_paths=contract.max_paths):
             res.paths += 1
+            if time.time() - t0 > budget:
+                raise core.PathLimit("time budget of %ds exhausted during path exploration" % budget)
             kind, payload = outcome
             if kind == "exc":
                 raise payload
@@ -605,9 +615,11 @@ def symbolic_run(contract: Contract, tier="quick", mutate=None) -> FunctionResul
                         goal = as_bool_term(v) if did else z3.Not(as_bool_term(v))
                         pending.append((core.Obligation("%s/raises/%s-exactly-when" % (contract.name, k.__name__),
                                                         list(c.pc) + extra, goal, "raises"), S))
+            for Lm, largs in contract.lemmas(S):
+                Lm.use(**largs)
             for cname, clause in contract.ensures.items():
                 try:
-                    for extra, v in nested_paths(c, lambda: clause(S)):
+                    for extra, v in nested_paths(c, lambda: _clause_value(clause, S)):
                         if v is None:
                             continue  # clause not applicable on this path
                         pending.append((core.Obligation("%s/ensures/%s" % (contract.name, cname),
@@ -639,8 +651,20 @@ def symbolic_run(contract: Contract, tier="quick", mutate=None) -> FunctionResul
                 res.obligations.append(rec)
                 continue
             ts = time.time()
-            verdict, backend, model = core.solve(ob.hyps + [z3.Not(ob.goal)], timeout, want_model=True)
+            if ts - t0 > budget:
+                verdict, backend, model = "unknown", "budget-exhausted", None
+            else:
+                verdict, backend, model = core.solve(ob.hyps + [z3.Not(ob.goal)], timeout, want_model=True)
+                if verdict == "sat":
+                    from . import spec as _spec
+                    r2 = _spec.confirm_sat(ob.hyps + [z3.Not(ob.goal)], timeout)
+                    if r2 == "unsat":
+                        verdict, backend = "unsat", "z3py-recfun"
+                    elif r2 == "unknown":
+                        verdict, backend = "unknown", "abstraction-sat-unconfirmed"
             dt = time.time() - ts
+            if os.environ.get("PYVC_DEBUG"):
+                print("[pyvc] %s %s %s %.2fs" % (ob.name, verdict, backend, dt), file=sys.stderr, flush=True)
             res.solver_s += dt
             rec.update(backend=backend, verdict=verdict, seconds=round(dt, 3))
             res.obligations.append(rec)
@@ -655,7 +679,7 @@ def symbolic_run(contract: Contract, tier="quick", mutate=None) -> FunctionResul
                     vio["inputs"] = model_inputs(contract, model)
                 except Exception as e:  # model read-back is best effort
                     vio["inputs_error"] = repr(e)
-                vio["model"] = str(model)[:2000]
+                vio["model"] = model.get("__text__", "")[:2000]
             res.violations.append(vio)
         res.axioms = sorted(models.USED_AXIOMS)
         res.known_ids = sorted(seen_known)
@@ -676,23 +700,25 @@ def symbolic_run(contract: Contract, tier="quick", mutate=None) -> FunctionResul
 _MISSING = object()
 
 
+def _clause_value(clause, S):
+    """A clause that cannot even be evaluated on a feasible path because the
+    result has the wrong shape (too short, wrong type, missing attribute) is
+    false on that path."""
+    try:
+        return clause(S)
+    except (IndexError, KeyError, AttributeError, TypeError, ValueError) as e:
+        if isinstance(e, (Unsupported,)):
+            raise
+        return False
+
+
 class ContractError(Exception):
     pass
 
 
 def model_inputs(contract, model):
-    """Concrete inputs of the scenario under a z3 model."""
-    syms = {}
-    for d in model.decls():
-        if d.arity() == 0:
-            syms[d.name()] = d
-    symbols = {}
-    for name, d in syms.items():
-        symbols[name] = (None, d())
-    out = {}
-    for n, s in contract.inputs.items():
-        out[n] = s.from_model(model, n, symbols)
-    return out
+    """Concrete inputs of the scenario under a model (dict name -> value)."""
+    return {n: sp.from_model(model, n, None) for n, sp in contract.inputs.items()}
 
 
 # --------------------------------------------------------------------------
@@ -755,7 +781,7 @@ def evaluate_clauses(contract, S):
             if bool(cond(S)) != did:
                 fails.append("raises/%s-exactly-when" % k.__name__)
     for cname, clause in contract.ensures.items():
-        v = clause(S)
+        v = _clause_value(clause, S)
         if v is None:
             continue
         if not v:
